@@ -16,6 +16,15 @@ package standard
 // provider of the real subscriber sits behind a gate: while the driver sends the re-org head event the
 // gate holds the re-subscription (it is "in flight"); a later Resub step lets it go, answering or
 // failing.  AttestAndScheduleAggregate runs at whatever point of that history the scenario says.
+//
+// ONE real controller, ONE real beacon committee subscriber and ONE real attestation aggregator per
+// HISTORY (built at Reset, never in between): every (re-)subscription of a scenario - with the oracle
+// as the re-org left it: a validator that kept its slot in another committee or in a committee of
+// another length - runs on the instances the earlier ones ran on.  Overlap: a Fetch step lets a held
+// re-subscription fetch the duties and parks its SignSlotSelections call for one slot inside the
+// scripted signer (the call is then inside the real AggregatorsAndSignatures) while the following steps
+// (other subscriptions, oracle changes, attestation jobs) run to completion on the same instances; a
+// Finish step answers the parked call.
 
 import (
 	"context"
@@ -70,7 +79,10 @@ type c14Step struct {
 	H          uint64   `json:"h"`
 	Committees []uint64 `json:"committees"`
 	Ok         bool     `json:"ok"`
-	Op         string   `json:"op"`    // Duty: "add" (default) or "drop"
+	Op         string   `json:"op"`    // Duty: "add" (default), "drop", "move" (same validator and slot, new committee / size), "resize"
+	Hs         uint64   `json:"hs"`    // Fetch: the slot whose selection call is parked in the signer
+	ID         int      `json:"id"`    // Finish: number of the parked call
+	Sfail      []uint64 `json:"sfail"` // Subscribe / Resub: slots whose selection call the scripted signer refuses
 	Fail       bool     `json:"fail"`  // Subscribe / Resub: the scripted beacon node fails the duties request
 	Reorg      bool     `json:"reorg"` // Head: the event carries a changed duty dependent root for the epoch
 	Spe        uint64   `json:"spe"`   // Reset: slots per epoch
@@ -149,13 +161,64 @@ func c14FindSig(v, slot, want uint64) phase0.BLSSignature {
 	}
 }
 
+type c14Parked struct {
+	id int
+	ch chan struct{}
+}
+
 type c14Signer struct {
 	mu   sync.Mutex
 	sigs map[[2]uint64]phase0.BLSSignature
+	// overlap: the next call for slot holdSlot is parked (it stays inside the real AggregatorsAndSignatures)
+	armed    bool
+	holdSlot uint64
+	nparked  int // calls ever parked
+	parked   []*c14Parked
+	calls    int
+	// failure: calls for these slots are refused; refused = the slots really refused since setFail
+	failSlots map[uint64]bool
+	refused   map[uint64]bool
+}
+
+func (s *c14Signer) setFail(slots []uint64, off uint64) {
+	s.mu.Lock()
+	s.failSlots, s.refused = map[uint64]bool{}, map[uint64]bool{}
+	for _, x := range slots {
+		s.failSlots[x+off] = true
+	}
+	s.mu.Unlock()
+}
+
+// takeRefused ends the failure script and says which slots were refused.
+func (s *c14Signer) takeRefused() []uint64 {
+	s.mu.Lock()
+	defer s.mu.Unlock()
+	res := make([]uint64, 0, len(s.refused))
+	for x := range s.refused {
+		res = append(res, x)
+	}
+	sort.Slice(res, func(i, j int) bool { return res[i] < res[j] })
+	s.failSlots, s.refused = nil, nil
+	return res
 }
 
 func (s *c14Signer) SignSlotSelections(_ context.Context, accounts []e2wtypes.Account, slot phase0.Slot) ([]phase0.BLSSignature, error) {
 	s.mu.Lock()
+	s.calls++
+	if s.failSlots[uint64(slot)] {
+		s.refused[uint64(slot)] = true
+		s.mu.Unlock()
+		return nil, errors.New("c14: scripted refusal of the slot-selection signer")
+	}
+	if s.armed && uint64(slot) == s.holdSlot {
+		s.armed = false
+		s.nparked++
+		p := &c14Parked{id: s.nparked, ch: make(chan struct{})}
+		s.parked = append(s.parked, p)
+		s.mu.Unlock()
+		<-p.ch
+		s.mu.Lock()
+	}
 	defer s.mu.Unlock()
 	res := make([]phase0.BLSSignature, len(accounts))
 	for i, a := range accounts {
@@ -170,6 +233,39 @@ func (s *c14Signer) SignSlotSelections(_ context.Context, accounts []e2wtypes.Ac
 		res[i] = sig
 	}
 	return res, nil
+}
+
+func (s *c14Signer) arm(slot uint64, on bool) {
+	s.mu.Lock()
+	s.armed, s.holdSlot = on, slot
+	s.mu.Unlock()
+}
+
+func (s *c14Signer) nowParked() int {
+	s.mu.Lock()
+	defer s.mu.Unlock()
+	return len(s.parked)
+}
+
+func (s *c14Signer) everParked() int {
+	s.mu.Lock()
+	defer s.mu.Unlock()
+	return s.nparked
+}
+
+// answer lets the parked call id go; false if there is none.
+func (s *c14Signer) answer(id int) bool {
+	s.mu.Lock()
+	for i, p := range s.parked {
+		if p.id == id {
+			s.parked = append(s.parked[:i:i], s.parked[i+1:]...)
+			s.mu.Unlock()
+			close(p.ch)
+			return true
+		}
+	}
+	s.mu.Unlock()
+	return false
 }
 
 type c14Duties struct {
@@ -367,7 +463,7 @@ func c14Quiesce(t *testing.T, base int, what string) {
 
 // c14QuiesceHeld waits until every goroutine started since base was taken (base = goroutines that were
 // running, i.e. not held at the gate) has ended or is held at the gate.
-func c14QuiesceHeld(t *testing.T, g *c14Gate, base int, what string) {
+func c14QuiesceHeld(t *testing.T, g c14Holder, base int, what string) {
 	t.Helper()
 	deadline := time.Now().Add(20 * time.Second)
 	for runtime.NumGoroutine()-g.nheld() > base {
@@ -378,6 +474,19 @@ func c14QuiesceHeld(t *testing.T, g *c14Gate, base int, what string) {
 		time.Sleep(50 * time.Microsecond)
 	}
 }
+
+// c14Holder says how many goroutines are blocked on purpose.
+type c14Holder interface{ nheld() int }
+
+// c14Holds: a re-subscription held at the beacon node is one goroutine (go subscribeToBeaconCommittees);
+// one whose selection call is parked in the signer is two (that one, waiting for its per-slot
+// goroutines, and the per-slot goroutine inside AggregatorsAndSignatures).
+type c14Holds struct {
+	gate   *c14Gate
+	signer *c14Signer
+}
+
+func (h *c14Holds) nheld() int { return h.gate.nheld() + 2*h.signer.nowParked() }
 
 type c14World struct {
 	spe     uint64
@@ -394,6 +503,7 @@ type c14World struct {
 	svc     *Service
 	allDuty []c14Step // real slots
 	gate    *c14Gate
+	holds   *c14Holds
 	epoch   uint64 // epoch of the scenario's duties (real)
 	haveEp  bool
 	// head events sent so far: the dependent roots the controller knows
@@ -420,7 +530,7 @@ func (w *c14World) sendHead(t *testing.T, what string) int {
 	t.Helper()
 	slot := w.ct.CurrentSlot()
 	before := w.gate.nheld()
-	base := runtime.NumGoroutine() - before
+	base := runtime.NumGoroutine() - w.holds.nheld()
 	var block phase0.Root
 	block = w.freshRoot()
 	w.svc.HandleHeadEvent(&apiv1.Event{
@@ -433,7 +543,7 @@ func (w *c14World) sendHead(t *testing.T, what string) int {
 			CurrentDutyDependentRoot:  w.curRoot,
 		},
 	})
-	c14QuiesceHeld(t, w.gate, base, what)
+	c14QuiesceHeld(t, w.holds, base, what)
 	return w.gate.nheld() - before
 }
 
@@ -462,10 +572,19 @@ func (w *c14World) emitHead(tr *verifsupport.Trace, sc int, reorg bool, resub in
 // drain ends what is still in flight (not part of the trace).
 func (w *c14World) drain(t *testing.T) {
 	t.Helper()
+	w.signer.arm(0, false)
+	for w.signer.nowParked() > 0 {
+		base := runtime.NumGoroutine() - w.holds.nheld()
+		w.signer.mu.Lock()
+		id := w.signer.parked[0].id
+		w.signer.mu.Unlock()
+		w.signer.answer(id)
+		c14QuiesceHeld(t, w.holds, base, "drain")
+	}
 	for w.gate.nheld() > 0 {
-		base := runtime.NumGoroutine() - w.gate.nheld()
+		base := runtime.NumGoroutine() - w.holds.nheld()
 		w.gate.release(false)
-		c14QuiesceHeld(t, w.gate, base, "drain")
+		c14QuiesceHeld(t, w.holds, base, "drain")
 	}
 }
 
@@ -478,6 +597,7 @@ func c14Build(t *testing.T, ctx context.Context, spe, target, now uint64) *c14Wo
 	w.duties = &c14Duties{spe: spe}
 	w.gate = &c14Gate{}
 	w.signer = &c14Signer{sigs: map[[2]uint64]phase0.BLSSignature{}}
+	w.holds = &c14Holds{gate: w.gate, signer: w.signer}
 	w.sub = &c14Submitter{}
 	w.att = &c14Attester{spe: spe}
 	w.accts = mockaccountmanager.NewValidatingAccountsProvider()
@@ -639,6 +759,20 @@ func TestVerifC14(t *testing.T) {
 				}
 			case "Duty":
 				slot := st.Slot + off
+				if st.Op == "resize" {
+					// after the re-org the committee has another length; its validators keep slot and index
+					w.duties.mu.Lock()
+					for _, d := range w.duties.duties {
+						if uint64(d.Slot) == slot && uint64(d.CommitteeIndex) == st.Committee {
+							d.CommitteeLength = st.Size
+							d.ValidatorCommitteeIndex = uint64(d.ValidatorIndex) % st.Size
+						}
+					}
+					w.duties.mu.Unlock()
+					tr.Emit(verifsupport.Ev{"sc": sc.Sc, "ev": "Duty", "op": "resize", "v": uint64(0), "slot": slot, "committee": st.Committee,
+						"size": st.Size, "h": uint64(0)})
+					break
+				}
 				if !w.haveEp {
 					w.epoch, w.haveEp = slot/spe, true
 				}
@@ -657,6 +791,28 @@ func TestVerifC14(t *testing.T) {
 					w.signer.sigs[key] = sig
 				}
 				w.signer.mu.Unlock()
+				if st.Op == "move" {
+					// the re-org leaves the validator its slot: another committee and / or another length
+					w.duties.mu.Lock()
+					var oc, oz uint64
+					found := false
+					for _, d := range w.duties.duties {
+						if uint64(d.Slot) == slot && uint64(d.ValidatorIndex) == st.V {
+							oc, oz, found = uint64(d.CommitteeIndex), d.CommitteeLength, true
+							d.CommitteeIndex = phase0.CommitteeIndex(st.Committee)
+							d.CommitteeLength = st.Size
+							d.ValidatorCommitteeIndex = st.V % st.Size
+							break
+						}
+					}
+					w.duties.mu.Unlock()
+					if !found {
+						t.Fatalf("c14: scenario %d moves a duty that the oracle does not have", sc.Sc)
+					}
+					tr.Emit(verifsupport.Ev{"sc": sc.Sc, "ev": "Duty", "op": "move", "v": st.V, "slot": slot, "committee": st.Committee,
+						"size": st.Size, "h": c14H(sig), "ocommittee": oc, "osize": oz})
+					break
+				}
 				if st.Op == "drop" {
 					w.duties.mu.Lock()
 					kept := w.duties.duties[:0:0]
@@ -710,14 +866,15 @@ func TestVerifC14(t *testing.T) {
 					accounts[k] = v
 				}
 				w.gate.set(false, st.Fail)
-				base := runtime.NumGoroutine() - w.gate.nheld()
+				w.signer.setFail(st.Sfail, off)
+				base := runtime.NumGoroutine() - w.holds.nheld()
 				w.svc.subscribeToBeaconCommittees(ctx, epoch, accounts)
-				c14QuiesceHeld(t, w.gate, base, "Subscribe")
+				c14QuiesceHeld(t, w.holds, base, "Subscribe")
 				w.gate.set(false, false)
 				subs, calls := w.sub.collect()
 				info, present := w.projectInfo(epoch)
 				tr.Emit(verifsupport.Ev{"sc": sc.Sc, "ev": "Subscribe", "ok": !st.Fail, "epoch": uint64(epoch), "info": info, "present": present,
-					"subs": subs, "calls": calls})
+					"subs": subs, "calls": calls, "sfail": w.signer.takeRefused()})
 			case "Head":
 				// A head event for the current slot through the real HandleHeadEvent.  With reorg, the event
 				// carries a changed previous (current) duty dependent root when the epoch of the duties is the
@@ -746,14 +903,53 @@ func TestVerifC14(t *testing.T) {
 				// A re-subscription in flight is let go: the beacon node answers (with the duties as they are
 				// now) or fails.
 				w.sub.reset()
-				base := runtime.NumGoroutine() - w.gate.nheld()
+				w.signer.setFail(st.Sfail, off)
+				base := runtime.NumGoroutine() - w.holds.nheld()
 				released := w.gate.release(!st.Fail)
 				// the goroutine let go runs on until the subscription has ended
-				c14QuiesceHeld(t, w.gate, base, "Resub")
+				c14QuiesceHeld(t, w.holds, base, "Resub")
 				subs, calls := w.sub.collect()
 				info, present := w.projectInfo(phase0.Epoch(w.epoch))
 				tr.Emit(verifsupport.Ev{"sc": sc.Sc, "ev": "Resub", "ok": released && !st.Fail, "released": released, "info": info,
-					"present": present, "subs": subs, "calls": calls, "inflight": w.gate.nheld()})
+					"present": present, "subs": subs, "calls": calls, "inflight": w.gate.nheld(), "sfail": w.signer.takeRefused()})
+			case "Fetch":
+				// A re-subscription in flight is let go at the beacon node (it fetches the duties as they are
+				// now); its selection call for slot hs is parked inside the scripted signer.  If the call never
+				// asks the signer for that slot it runs to its end: that is a Resub.
+				w.sub.reset()
+				base := runtime.NumGoroutine() - w.holds.nheld()
+				before := w.signer.everParked()
+				w.signer.arm(st.Hs+off, true)
+				released := w.gate.release(true)
+				// (the call may be parked before its subscription has started the selection calls of the other
+				// slots: quiescent means quiescent for a while)
+				for k := 0; k < 4; k++ {
+					c14QuiesceHeld(t, w.holds, base, "Fetch")
+					time.Sleep(150 * time.Microsecond)
+				}
+				c14QuiesceHeld(t, w.holds, base, "Fetch")
+				w.signer.arm(0, false)
+				if id := w.signer.everParked(); id > before {
+					tr.Emit(verifsupport.Ev{"sc": sc.Sc, "ev": "Fetch", "hs": st.Hs + off, "id": id, "inflight": w.gate.nheld()})
+					break
+				}
+				subs, calls := w.sub.collect()
+				info, present := w.projectInfo(phase0.Epoch(w.epoch))
+				tr.Emit(verifsupport.Ev{"sc": sc.Sc, "ev": "Resub", "ok": released, "released": released, "info": info,
+					"present": present, "subs": subs, "calls": calls, "inflight": w.gate.nheld(), "unparked": st.Hs + off, "sfail": []uint64{}})
+			case "Finish":
+				// The parked selection call is answered: the subscription it belongs to runs to its end.
+				w.sub.reset()
+				base := runtime.NumGoroutine() - w.holds.nheld()
+				if !w.signer.answer(st.ID) {
+					// the call was never parked (logged as Resub at its Fetch step): nothing to finish
+					break
+				}
+				c14QuiesceHeld(t, w.holds, base, "Finish")
+				subs, calls := w.sub.collect()
+				info, present := w.projectInfo(phase0.Epoch(w.epoch))
+				tr.Emit(verifsupport.Ev{"sc": sc.Sc, "ev": "Finish", "id": st.ID, "info": info, "present": present,
+					"subs": subs, "calls": calls, "inflight": w.gate.nheld()})
 			case "Attest":
 				slot := st.Slot + off
 				var slotDuties []*apiv1.AttesterDuty
